@@ -130,7 +130,7 @@ theorem aexit_lift (D : Int) (ig : Bool) (self : Int) (r : Res) (s : TS)
   have hcont : ∀ m, s.marker = some m → ((D :: s.deadlines).contains m = s.deadlines.contains m) := by
     intro m hm
     have : m ≠ D := by intro h; rw [h] at hm; exact hmk hm
-    simp [List.contains_cons, this]
+    simp [this]
   have hdl : (D :: s.deadlines).dropLast = D :: s.deadlines.dropLast := by
     cases hd : s.deadlines with
     | nil => exact absurd hd hne
@@ -194,26 +194,26 @@ theorem doSleep_pres (s : TS) (d : Nat) (hst : Strong s) (hk : Kk s) (hc : s.can
       simp only [h, ↓reduceIte] at hK
       exact ⟨rfl, hK.1, hK.2, hc, fun _ => by simpa [wakeUp, Strong] using hst⟩
 
-theorem run_pres (p : Prog) : ∀ (s : TS), NoCatch p → Strong s → Kk s → s.cancelAt = none →
+theorem run_pres (p : Prog) : ∀ (s : TS), NoCatch p → Flat p → Strong s → Kk s → s.cancelAt = none →
     Pres s (run true p s).2.1 (run true p s).1 := by
   induction p with
-  | skip => intro s _ hst hk hc; exact ⟨rfl, hk, Int.le_refl _, hc, fun _ => hst⟩
-  | sleep d => intro s _ hst hk hc; simpa [run] using doSleep_pres s d hst hk hc
-  | raise e => intro s _ hst hk hc; exact ⟨rfl, hk, Int.le_refl _, hc, fun _ => hst⟩
+  | skip => intro s _ _ hst hk hc; exact ⟨rfl, hk, Int.le_refl _, hc, fun _ => hst⟩
+  | sleep d => intro s _ _ hst hk hc; simpa [run] using doSleep_pres s d hst hk hc
+  | raise e => intro s _ _ hst hk hc; exact ⟨rfl, hk, Int.le_refl _, hc, fun _ => hst⟩
   | seq a b iha ihb =>
-    intro s hp hst hk hc
-    have ha := iha s hp.1 hst hk hc
+    intro s hp hf hst hk hc
+    have ha := iha s hp.1 hf.1 hst hk hc
     simp only [run]
     split
     · rename_i e he; rw [he] at ha; simpa [he] using ha
     · rename_i he
       rw [he] at ha
-      have hb := ihb (run true a s).2.1 hp.2 (ha.strong trivial) ha.kk ha.noCancel
+      have hb := ihb (run true a s).2.1 hp.2 hf.2 (ha.strong trivial) ha.kk ha.noCancel
       exact ⟨by rw [hb.deadlines, ha.deadlines], hb.kk, Int.le_trans ha.mono hb.mono,
              hb.noCancel, hb.strong⟩
   | tryCatch b cs hd ihb ihh =>
-    intro s hp hst hk hc
-    have hb := ihb s hp.1 hst hk hc
+    intro s hp hf hst hk hc
+    have hb := ihb s hp.1 hf.1 hst hk hc
     simp only [run]
     split
     · rename_i e he
@@ -227,15 +227,15 @@ theorem run_pres (p : Prog) : ∀ (s : TS), NoCatch p → Strong s → Kk s → 
           | taskTimeout => trivial
           | uncaught => trivial
           | other => trivial
-        have hh := ihh (run true b s).2.1 hp.2.1 (hb.strong hcont) hb.kk hb.noCancel
+        have hh := ihh (run true b s).2.1 hp.2.1 hf.2 (hb.strong hcont) hb.kk hb.noCancel
         exact ⟨by rw [hh.deadlines, hb.deadlines], hh.kk, Int.le_trans hb.mono hh.mono,
                hh.noCancel, hh.strong⟩
       · rw [he] at hb; simpa [he] using hb
     · rename_i he; rw [he] at hb; simpa [he] using hb
   | block ig rel t body ih =>
-    intro s hp hst hk hc
+    intro s hp hf hst hk hc
     simp only [run]
-    have hbody := ih (enter s (if rel then s.now + t else t)) hp (enter_strong _ _ hst)
+    have hbody := ih (enter s (if rel then s.now + t else t)) hp hf (enter_strong _ _ hst)
       (by intro m hm; simp [enter] at hm) (by simpa [enter] using hc)
     obtain ⟨f1, f2, f3, f4⟩ := aexit_frame ig (if rel then s.now + t else t)
       (run true body (enter s (if rel then s.now + t else t))).1
@@ -246,43 +246,44 @@ theorem run_pres (p : Prog) : ∀ (s : TS), NoCatch p → Strong s → Kk s → 
     · rw [f3, hbody.deadlines]; simp [enter]
     · rw [f1]; have := hbody.mono; simpa [enter] using this
     · rw [f2]; exact hbody.noCancel
+  | group anyp ms body _ => intro s _ hf; exact absurd hf id
 
 /-- **Frame lemma.**  A program that (run on its own) ends before `D` runs identically under
 an additional enclosing deadline `D`: same result, same per-block trace, same times. -/
-theorem run_lift (D : Int) (p : Prog) : ∀ (s : TS), NoCatch p → Strong s → Kk s →
+theorem run_lift (D : Int) (p : Prog) : ∀ (s : TS), NoCatch p → Flat p → Strong s → Kk s →
     s.cancelAt = none → (run true p s).2.1.now < D →
     run true p (lift D s) = ((run true p s).1, lift D (run true p s).2.1, (run true p s).2.2) := by
   induction p with
-  | skip => intro s _ _ _ _ _; rfl
+  | skip => intro s _ _ _ _ _ _; rfl
   | sleep d =>
-    intro s _ hst _ hc hlt
+    intro s _ _ hst _ hc hlt
     simp only [run] at hlt ⊢
     rw [doSleep_lift D s d hst hc hlt]
-  | raise e => intro s _ _ _ _ _; rfl
+  | raise e => intro s _ _ _ _ _ _; rfl
   | seq a b iha ihb =>
-    intro s hp hst hk hc hlt
-    have hpa := run_pres a s hp.1 hst hk hc
+    intro s hp hf hst hk hc hlt
+    have hpa := run_pres a s hp.1 hf.1 hst hk hc
     simp only [run] at hlt ⊢
     cases hra : (run true a s).1 with
     | some e =>
       simp only [hra] at hlt
-      rw [iha s hp.1 hst hk hc hlt, hra]
+      rw [iha s hp.1 hf.1 hst hk hc hlt, hra]
     | none =>
       simp only [hra] at hlt
       rw [hra] at hpa
-      have hpb := run_pres b (run true a s).2.1 hp.2 (hpa.strong trivial) hpa.kk hpa.noCancel
+      have hpb := run_pres b (run true a s).2.1 hp.2 hf.2 (hpa.strong trivial) hpa.kk hpa.noCancel
       have hlta : (run true a s).2.1.now < D := Int.lt_of_le_of_lt hpb.mono hlt
-      rw [iha s hp.1 hst hk hc hlta, hra]
+      rw [iha s hp.1 hf.1 hst hk hc hlta, hra]
       simp only []
-      rw [ihb _ hp.2 (hpa.strong trivial) hpa.kk hpa.noCancel hlt]
+      rw [ihb _ hp.2 hf.2 (hpa.strong trivial) hpa.kk hpa.noCancel hlt]
   | tryCatch b cs hd ihb ihh =>
-    intro s hp hst hk hc hlt
-    have hpb := run_pres b s hp.1 hst hk hc
+    intro s hp hf hst hk hc hlt
+    have hpb := run_pres b s hp.1 hf.1 hst hk hc
     simp only [run] at hlt ⊢
     cases hrb : (run true b s).1 with
     | none =>
       simp only [hrb] at hlt
-      rw [ihb s hp.1 hst hk hc hlt, hrb]
+      rw [ihb s hp.1 hf.1 hst hk hc hlt, hrb]
     | some e =>
       simp only [hrb] at hlt
       by_cases hin : cs.contains e = true
@@ -295,27 +296,27 @@ theorem run_lift (D : Int) (p : Prog) : ∀ (s : TS), NoCatch p → Strong s →
           | taskTimeout => trivial
           | uncaught => trivial
           | other => trivial
-        have hph := run_pres hd (run true b s).2.1 hp.2.1 (hpb.strong hcont) hpb.kk hpb.noCancel
+        have hph := run_pres hd (run true b s).2.1 hp.2.1 hf.2 (hpb.strong hcont) hpb.kk hpb.noCancel
         have hltb : (run true b s).2.1.now < D := Int.lt_of_le_of_lt hph.mono hlt
-        rw [ihb s hp.1 hst hk hc hltb, hrb]
+        rw [ihb s hp.1 hf.1 hst hk hc hltb, hrb]
         simp only [hin, ↓reduceIte]
-        rw [ihh _ hp.2.1 (hpb.strong hcont) hpb.kk hpb.noCancel hlt]
+        rw [ihh _ hp.2.1 hf.2 (hpb.strong hcont) hpb.kk hpb.noCancel hlt]
       · have hin' : e ∉ cs := by simpa using hin
         simp only [hin] at hlt
-        rw [ihb s hp.1 hst hk hc (by simpa using hlt), hrb]
+        rw [ihb s hp.1 hf.1 hst hk hc (by simpa using hlt), hrb]
         simp [hin']
   | block ig rel t body ih =>
-    intro s hp hst hk hc hlt
+    intro s hp hf hst hk hc hlt
     simp only [run] at hlt ⊢
     have hnow : (lift D s).now = s.now := rfl
     rw [hnow, enter_lift D s _ hst]
-    have hpb := run_pres body (enter s (if rel then s.now + t else t)) hp (enter_strong _ _ hst)
+    have hpb := run_pres body (enter s (if rel then s.now + t else t)) hp hf (enter_strong _ _ hst)
       (by intro m hm; simp [enter] at hm) (by simpa [enter] using hc)
     have f1 := (aexit_frame ig (if rel then s.now + t else t)
       (run true body (enter s (if rel then s.now + t else t))).1
       (run true body (enter s (if rel then s.now + t else t))).2.1).1
     rw [f1] at hlt
-    rw [ih _ hp (enter_strong _ _ hst) (by intro m hm; simp [enter] at hm)
+    rw [ih _ hp hf (enter_strong _ _ hst) (by intro m hm; simp [enter] at hm)
       (by simpa [enter] using hc) hlt]
     simp only []
     have hne : (run true body (enter s (if rel then s.now + t else t))).2.1.deadlines ≠ [] := by
@@ -324,13 +325,15 @@ theorem run_lift (D : Int) (p : Prog) : ∀ (s : TS), NoCatch p → Strong s →
       intro hm; have := hpb.kk D hm; omega
     rw [aexit_lift D ig _ _ _ hne hmk]
     rfl
+  | group anyp ms body _ => intro s _ hf; exact absurd hf id
 
 /-- **Early finish unaffected.**  If the body of an outermost timeout block (any form), run on
 its own from time `t0`, ends strictly before the block's deadline `d` - with whatever result -
 then under the block it ends with the same result (an unhandled inner `TaskTimeout` surfacing as
 `UncaughtTimeoutError`, as specified), at the same time, with the same inner trace, the block
 does not report expiry, and nothing is left armed. -/
-theorem early_finish_unaffected (ig rel : Bool) (t t0 : Int) (body : Prog) (hp : NoCatch body) :
+theorem early_finish_unaffected (ig rel : Bool) (t t0 : Int) (body : Prog) (hp : NoCatch body)
+    (hf : Flat body) :
     let d := if rel then t0 + t else t
     let alone := run true body { now := t0 }
     let under := run true (.block ig rel t body) { now := t0 }
@@ -342,8 +345,8 @@ theorem early_finish_unaffected (ig rel : Bool) (t t0 : Int) (body : Prog) (hp :
   intro d alone under hlt
   have hst0 : Strong ({ now := t0 } : TS) := by simp [Strong, minL]
   have hk0 : Kk ({ now := t0 } : TS) := by intro m hm; simp at hm
-  have hl := run_lift d body { now := t0 } hp hst0 hk0 rfl hlt
-  have hp0 := run_pres body { now := t0 } hp hst0 hk0 rfl
+  have hl := run_lift d body { now := t0 } hp hf hst0 hk0 rfl hlt
+  have hp0 := run_pres body { now := t0 } hp hf hst0 hk0 rfl
   have he : enter ({ now := t0 } : TS) d = lift d { now := t0 } := by
     simp [enter, lift, minL]
   have hunder : under = (let x := aexit true ig d alone.1 (lift d alone.2.1);
